@@ -263,6 +263,15 @@ def _float(ip, v):
       return float(v)
     except ValueError:
       raise PyRaise("ValueError", ("could not convert string to float", v))
+  if isinstance(v, SStr) and len(v.pieces) == 1 and isinstance(v.pieces[0], tuple) and v.pieces[0][0] == "format" \
+      and v.pieces[0][1] in ("{0:.2f}", "{:.2f}") and len(v.pieces[0][2]) == 1:
+    # float("{0:.2f}".format(x)): x rounded to two decimals, |r - x| <= 0.005 (assumed contract of str.format)
+    x = v.pieces[0][2][0]
+    xe = R(ip.num(x))
+    r = ip.fresh("round2", "real")
+    ip.assume(z3.And(r - xe <= z3.RealVal("5/1000"), xe - r <= z3.RealVal("5/1000"),
+                     z3.Implies(xe >= 0, r >= 0)))
+    return SNum(r, "float")
   raise Unsupported("float() of %r" % (v,))
 
 
@@ -976,6 +985,8 @@ def _np_power(ip, a, b):
 @model("np.array", "np.asarray")
 def _np_array(ip, v, dtype=None, **k):
   if isinstance(v, (list, tuple)):
+    if all(isinstance(x, (int, SNum)) and not isinstance(x, bool) for x in v) and dtype is None:
+      return NDList(v)
     return [_np_array(ip, x) for x in v]
   if isinstance(v, SNum):
     tag = dict(v.tag) if isinstance(v.tag, dict) else {}
@@ -996,6 +1007,26 @@ def _np_mod(ip, a, b):
     import numpy as np
     return float(np.mod(a, b))
   raise Unsupported("np.mod on symbolic values")
+
+
+class NDList(list):
+  """1-d numpy array stand-in: element-wise comparisons (handled in Interp.compare)."""
+
+
+def _poly1d(ip, coeffs, *a, **k):
+  cs = list(ip.iterate(coeffs))
+
+  def ev(ip_, self_, x):
+    acc = 0
+    for c in cs:
+      acc = ip_.binop(ast.Add(), ip_.binop(ast.Mult(), acc, x), c)
+    return acc
+  o = Obj(ExtClass("np.poly1d"), {"coeffs": cs, "__call__": lambda ip_, self_, args, kwargs: ev(ip_, self_, args[0])},
+          label="poly1d")
+  return o
+
+
+TABLE["np.poly1d"] = Builtin("np.poly1d", _poly1d)
 
 
 @model("np.squeeze")
